@@ -538,6 +538,14 @@ std::string build_crash_case(const std::string &kind_in) {
     }
     int tail = uni(1, 5);
     for (int i = 0; i < tail; i++) lines.push_back(chance(80) ? "put " + gen_key(p) + " " + smallv() : "del " + gen_key(p));
+    if (chance(30)) {
+      // one batch whose log record spans three or more 32 KiB blocks, so that damage in the middle of a record is reachable
+      std::string b = "batch";
+      int n = uni(28, 60);
+      for (int j = 0; j < n; j++) b += " p:" + gen_key(p) + fmt(":r%d.%d", uni(0, 99999), uni(2000, 3000));
+      lines.push_back(b);
+      if (chance(50)) lines.push_back("put " + gen_key(p) + " " + smallv());
+    }
     std::string text;
     for (auto &l : lines) { text += l; text += "\n"; }
     return text;
@@ -774,6 +782,24 @@ std::string build_conc_case(const std::string &kind_in) {
   lines.push_back(cfgl);
   int T = std::min(thorough ? 8 : 5, 2 + len / 25 + uni(0, 1));
   if (c10) T = uni(3, thorough ? 8 : 5);
+  std::vector<int> nkeys(T), counter(T, 0);
+  for (int t = 0; t < T; t++) nkeys[t] = uni(1, 3);
+  // setup: optionally give the threads' keys an older value that already lives in a table (so that a delete or overwrite
+  // during the concurrent phase shadows on-disk data, through the memtable, the immutable memtable or a newer table)
+  if (!c10 && chance(45)) {
+    for (int t = 0; t < T; t++) for (int k = 0; k < nkeys[t]; k++) if (chance(75)) lines.push_back(fmt("put tT%dk%d tinitT%dk%d", t, k, t, k));
+    lines.push_back("flush");
+    if (chance(30)) lines.push_back("crange 0");
+  }
+  // setup: now and then a database that is opened with a level-0 backlog: one large log written under a big write buffer
+  // and recovered under a small one (every buffer-full of the log becomes a level-0 table during recovery)
+  bool backlog = (c09 && chance(18)) || (!c09 && !c10 && chance(4));
+  if (backlog) {
+    size_t wp = lines[0].find("wbs=65536");
+    if (wp != std::string::npos) lines[0].replace(wp, 9, "wbs=4194304");
+    lines.push_back(fmt("fill 0 %d %d", uni(300, 1100), pick<int>({{2, 1000}, {1, 2000}})));
+    lines.push_back(fmt("reopen wbs=65536%s", chance(50) ? " reuse=1" : ""));
+  }
   // setup: optionally bring the memtable close to its limit / create level-0 pressure
   int sc = uni(0, 99);
   if (sc < (c09 ? 55 : 30)) lines.push_back(fmt("fill 0 %d 1000", uni(50, 62)));
@@ -782,8 +808,6 @@ std::string build_conc_case(const std::string &kind_in) {
     for (int i = 0; i < n; i++) { lines.push_back(fmt("put tsetup%d r%d.%d", i % 3, uni(0, 9999), uni(10, 400))); lines.push_back("flush"); }
     if (chance(50)) lines.push_back(fmt("fill 0 %d 1000", uni(50, 62)));
   }
-  std::vector<int> nkeys(T), counter(T, 0);
-  for (int t = 0; t < T; t++) nkeys[t] = uni(1, 3);
   auto anykey = [&]() { int t = uni(0, T - 1); return fmt("tT%dk%d", t, uni(0, nkeys[t] - 1)); };
   auto val = [&](int t) {
     std::string tok = fmt("tT%dc%d", t, ++counter[t]);
